@@ -317,7 +317,9 @@ def do_index(interp, obj, idx, path):
         return seq_index(interp, obj.term, idx, path)
     if isinstance(obj, DictV):
         return dict_get(interp, obj, idx, path)
-    from .values import RecV
+    from .values import RecV, JUnionV
+    if isinstance(obj, JUnionV):
+        obj = interp.narrow_json(obj, path)
     if isinstance(obj, RecV):
         return interp.rec_get(obj, idx, path)
     if obj is None:
